@@ -390,6 +390,37 @@ def class_probes(t, cls):
         P.must_reject("ctor", "list kind as keyword", "undeclared-keyword", lambda a: cls(*margs, **dict(kwargs, **{c.name: a})), U.build(U.MIN(c.target)), {"cls": n, "probe": "kw"})
 
 
+def subclass_probes(t):
+    """an application's subclass of a library model (same name or another) that adds a required, length-limited element:
+    its own declarations are enforced, whichever of parent and subclass was used first"""
+    from ofxtools import Types
+    from ofxtools import models as M
+
+    for pname in ("STATUS", "BAL", "BANKACCTFROM"):
+        parent = getattr(M, pname)
+        pkw = U.MIN(parent)
+        for subname in (pname, "MY" + pname):
+            for parent_first in (True, False):
+                sub = type(subname, (parent,), {"reason": Types.String(4, required=True), "__module__": "application.models"})
+                P = Probe(t, pname)
+                case = {"cls": pname, "probe": "application-subclass", "name": subname, "parent_first": parent_first}
+                kwargs = {k: (U.build(v) if S._isterm(v) else v) for k, v in pkw[1].items()}
+                if parent_first:
+                    parent(**kwargs)
+                t.count("constraints")
+                P.must_reject("ctor", f"{subname}(parent's children only)", "subclass-required", lambda a: sub(**a), dict(kwargs), case)
+                P.must_reject("ctor", f"{subname}(reason too long)", "subclass-maxlen", lambda a: sub(**a), dict(kwargs, reason="12345"), case)
+                t.count("evaluations")
+                try:
+                    inst = sub(**dict(kwargs, reason="ok"))
+                    if inst.reason != "ok":
+                        t.fail(f"C04|{pname}|subclass|ctor|declared-element-not-stored", case, repr(inst))
+                    else:
+                        t.outcome("accepted-ctor")
+                except Exception as e:
+                    t.fail(f"C04|{pname}|subclass|ctor|boundary-rejected", case, f"{type(e).__name__}: {str(e)[:150]}")
+
+
 def work(chunk):
     t = Tally()
     c11.prime()
@@ -410,6 +441,9 @@ def run(ctx):
     names = [c.__name__ for c in classes]
     rot = ctx.seed % len(names)
     tally = ctx.pmap(work, names[rot:] + names[:rot])
+    from vf.core import in_fork
+
+    tally.merge(in_fork(lambda: (lambda tt: (subclass_probes(tt), tt)[1])(Tally())))
     if tally.counts.get("constraints", 0) < 4000 or tally.counts.get("classes") != len(names):
         vacuous(tally, f"vacuous: {tally.counts}")
     if not tally.fails:
@@ -425,7 +459,7 @@ def run(ctx):
         "rule": "every class x every declared/inherited constraint: required child omitted (MIN and MAXS); each pair of a group present, none of an exactly-one group (also: only an empty or blank string), "
         "each member alone; enumeration foreign tokens (near misses and 8 tokens of other enumerations, accepted there first) and first/last token; string at limit / limit+1 (also counted in escaped ampersands; NagString warns and keeps); "
         "integer +-(10^n-1) / 10^n,-10^n,10^(n+1); non-value text per typed element; every adjacent pair of the MAXS tree swapped (unless both repeated); every "
-        "non-repeatable child duplicated (adjacent and one sibling later); foreign aggregate / int / str as list member; the class-specific rules of 16 classes (one-or-more members, one account-info per service, request / response not mixed, credentials, contribution sources, conditional requirements); undeclared keyword - through the keyword "
+        "non-repeatable child duplicated (adjacent and one sibling later); foreign aggregate / int / str as list member; subclasses of 3 library classes that add a required, length-limited element (same and other name, parent used first or not); the class-specific rules of 16 classes (one-or-more members, one account-info per service, request / response not mixed, credentials, contribution sources, conditional requirements); undeclared keyword - through the keyword "
         "constructor and through Aggregate.from_etree on a tree built by the harness; distinct_nontrivial = violating variants, evaluations also count boundary variants",
         "constraints": tally.counts.get("constraints", 0),
         "violating_variants": tally.counts.get("violating", 0),
@@ -443,7 +477,10 @@ def run(ctx):
 def replay(ctx, case):
     t = Tally()
     c11.prime()
-    class_probes(t, U.cls_by_name(case["cls"]))
+    if case.get("probe") == "application-subclass":
+        subclass_probes(t)
+    else:
+        class_probes(t, U.cls_by_name(case["cls"]))
     for sig, (n, c, d) in sorted(t.fails.items()):
         print(" ", sig, "|", d)
     return bool(t.fails)
